@@ -193,3 +193,25 @@ func (g *c07Gen) program() string {
 	}
 	return c07Prelude + body
 }
+
+// ---- C09: try-body exit x catch action x finally x context, completely enumerated ----
+func c09Product() []string {
+	bodies := []string{"probe(1)", "throw \"t\"", "zz = 1 % 0", "return 7", "break", "continue", "probe(undefined_name)",
+		"thrower()", "try { throw 1 } catch q { throw q }", "defer probe(\"d\"); throw 2"}
+	catches := []string{"probe(e)", "throw e", "throw \"again\"", "probe(2); return 8", "", "zz = 1 % 0", "break", "e = 3; probe(e)",
+		"func() { throw e }()", "defer probe(\"dc\")"}
+	finals := []string{"", " finally { probe(\"f\") }", " finally { throw \"ff\" }", " finally { return 9 }"}
+	var out []string
+	for _, b := range bodies {
+		for _, c := range catches {
+			for _, f := range finals {
+				t := "try { " + b + "; probe(\"after-body\") } catch e { " + c + " }" + f
+				out = append(out,
+					"func thrower() { throw \"from-callee\" }\nfunc run() { probe(\"start\"); "+t+"; probe(\"after-try\"); return 1 }\n"+
+						"r = nil; try { r = run() } catch outer { probe(\"outer\") }\nprobe(r)",
+					"func thrower() { throw \"from-callee\" }\nfor i = 0; i < 2; i++ { probe(i); "+t+"; probe(\"after-try\") }\nprobe(\"end\")")
+			}
+		}
+	}
+	return out
+}
